@@ -46,7 +46,7 @@ type costMeasure struct {
 	Names    uint64 // bytes of decoded domain names in the value (rfc1035label.Labels)
 }
 
-const c09HangLimit = 2 * time.Second
+const c09HangLimit = 10 * time.Second
 
 // ---- probe side -----------------------------------------------------------
 
@@ -446,7 +446,7 @@ func (c *costClient) measure(entry string, b []byte) costMeasure {
 	// time for decode + re-encode when several probes run side by side)
 	timeout := c.Timeout
 	if timeout == 0 {
-		timeout = 5*time.Second + time.Duration(len(b))*15*time.Second/c09MaxUDP
+		timeout = 20*time.Second + time.Duration(len(b))*40*time.Second/c09MaxUDP
 	}
 	if c.cmd == nil {
 		if err := c.start(); err != nil {
